@@ -75,4 +75,20 @@ def obligations(tier, ctx):
         for has in (True, False):
             obs.append(Ob(name=f"exc_{meth.replace('/', '_')}_{'id' if has else 'noid'}", params=[("rid", "int"), ("tsel", "int"), ("hsel", "int")], pre=["0 <= tsel <= 5", "6 <= hsel <= 12"] + (["hsel == 6 or tsel <= 1"] if tier == "quick" else []),
                           call=f"H.dispatch_exc({meth!r}, {has}, rid if {has} else None, {psel}, hsel, tsel)", backend="F", timeout=200, family="handler raises (exception class x text corpus)"))
+    # count / size dimension (P backend: concrete messages, the case split is on the size)
+    from symcheck import consts
+    ENV_SIZES = (4096, 8192, 65536, 131072)
+    lim = 110 if tier == "quick" else 1100
+    nc = len(consts.size_cases(lim))
+    for has in (True, False):
+        obs.append(Ob(name=f"nth_{'id' if has else 'noid'}", params=[("k", "int"), ("mi", "int"), ("hsel", "int")],
+                      pre=[f"0 <= k < {nc}", ("mi in (1, 3, 7)" if tier == "quick" else "mi in (0, 1, 3, 5, 7, 8, 9)"), "hsel in (0, 6)"],
+                      call=f"H.dispatch_nth(mi, {has}, k, hsel, {lim})", backend="P", timeout=900, family="count: the (n+1)-th message on one server, n = c-1, c, c+1 (c: integer constants of the source)"))
+    nsz = len(consts.size_cases(70000, extra=ENV_SIZES))
+    for where in range(5):
+        for pat in ((0,) if tier == "quick" else (0, 2, 4)):
+            obs.append(Ob(name=f"long_w{where}_p{pat}", params=[("k", "int"), ("mi", "int"), ("hsel", "int")],
+                          pre=[f"0 <= k < {nsz}", ("mi in (1, 3)" if where in (0, 4) else "mi in (0, 1)" if where == 2 else "mi == 3"), ("hsel in (0, 6)" if where != 4 else "hsel in (6, 7)")],
+                          call=f"H.dispatch_long(mi, k, {pat}, {where}, hsel)", backend="P", timeout=900,
+                          family="size: id / tool argument / tool name or uri / method name / exception text of c-1, c, c+1 characters"))
     return obs
